@@ -621,6 +621,29 @@ Proof.
   vm_compute. split; [reflexivity|]. split; [eexists; repeat split|]. split; [reflexivity|]. eexists; repeat split.
 Qed.
 
+(** the any-suffix forms: left context [x {y \textbf{] + items [a] + whitespace +
+    [\)] + garbage [{$] (nothing after the token is well formed); and left context
+    [\(] + [a] + [{] + [b] + [ ] + [\)] + garbage [}}] *)
+Example C05_fault_any_suffix_nonvacuous :
+  let path := [LGrp [Text [] [120]] [32]; LMac [Text [] [121]] [32] [116;101;120;116;98;102] [] []] in
+  let ps0 := walker_state default_ctx in
+  ok_lpath default_ctx ps0 path (Some 97) = true /\
+  ok_items default_ctx (lp_state default_ctx ps0 path) [Text [] [97]] (Some 32) = true /\
+  closes_hole path (SMClose MParen) = false /\
+  (exists e, parse_top (lp_text path ++ [97] ++ [32] ++ stray_text (SMClose MParen) ++ [123;36]) false default_ctx ps0
+             = PErr e 17 /\ pe_pos e = Some 15%nat /\ pe_what e = 4%nat) /\
+  (let path2 := [LMath [] [] MParen] in
+   ok_lpath default_ctx ps0 path2 (Some 97) = true /\
+   ok_items default_ctx (lp_state default_ctx ps0 path2) [Text [] [97]] (Some 123) = true /\
+   ok_items default_ctx (open_state default_ctx (lp_state default_ctx ps0 path2) OBrace) [Text [] [98]] (Some 32) = true /\
+   exists e, parse_top (lp_text path2 ++ [97] ++ [] ++ open_text OBrace ++ [98] ++ [32]
+                        ++ stray_text (SMClose MParen) ++ [125;125]) false default_ctx ps0
+             = PErr e 8 /\ pe_pos e = Some 6%nat /\ pe_what e = 4%nat).
+Proof.
+  vm_compute. split; [reflexivity|]. split; [reflexivity|]. split; [reflexivity|]. split; [eexists; repeat split|].
+  split; [reflexivity|]. split; [reflexivity|]. split; [reflexivity|]. eexists; repeat split.
+Qed.
+
 Print Assumptions C05_zdoc_text.
 Print Assumptions C05_fault_closing_partial.
 Print Assumptions C05_fault_closing_any_suffix_partial.
